@@ -120,6 +120,52 @@ func runC16b(t *testing.T, run *mc.Run) int {
 			}
 		}
 	}
+	// a login is delivered, and delivered again (or the pid is taken by a new connection) 40 s later; the LOGIN
+	// record follows 30 s after that: it is within a minute of the login that is waiting, so they correlate -
+	// nothing that was started for the first delivery (a timer, an age) may take the second one away
+	for _, ph := range phases {
+		for _, same := range []bool{true, false} {
+			n++
+			var msg string
+			bubble(t, func() {
+				r := startRead(0)
+				defer r.stop()
+				vsleep(ph)
+				lg := mkLogin(bindPID, "1")
+				r.offerLogin(lg)
+				vsleep(40 * time.Second)
+				lg2 := mkLogin(bindPID, "1")
+				if !same {
+					lg2 = mkLogin(bindPID, "2")
+				}
+				r.offerLogin(lg2)
+				vsleep(30 * time.Second)
+				for _, l := range []string{
+					bindLines("7"),
+					auditgen.Simple("USER_START", 1700000021, 3001, "7", "4242", "success").Recs[0].Line,
+					auditgen.Simple("USER_ACCT", 1700000022, 3002, "7", "4242", "success").Recs[0].Line,
+					auditgen.Simple("USER_END", 1700000023, 3003, "7", "4242", "success").Recs[0].Line,
+					auditgen.Simple("CRED_DISP", 1700000024, 3004, "7", "4242", "success").Recs[0].Line,
+				} {
+					r.offerLine(l + "\n")
+				}
+				vsleep(200 * time.Second)
+				evs, _ := r.w.events()
+				if r.returned {
+					msg = fmt.Sprintf("the processor stopped: %v", r.ret)
+					return
+				}
+				if len(evs) != 5 {
+					msg = fmt.Sprintf("login at %v, login for the same pid again 40 s later, LOGIN record 30 s after that: %d of the session's 5 events were emitted; the halves are within a minute of each other", ph, len(evs))
+				} else if identity(&evs[0]) != identity(lg2.Source) {
+					msg = "the session carries the identity of the first delivery, not of the login that was waiting"
+				}
+			})
+			if msg != "" {
+				run.Violation("C16:wiring:login-delivered-twice", map[string]any{"phase_s": ph.Seconds(), "identical": same}, msg)
+			}
+		}
+	}
 	// the loop itself stalls across a cleanup instant (the consumer of the events output stops reading while the
 	// held events of ANOTHER session are being flushed), resumes, and the second half arrives before the next
 	// cleanup instant but more than two minutes after the first: the pending half must be gone all the same
@@ -267,7 +313,7 @@ func runC16b(t *testing.T, run *mc.Run) int {
 		}
 	}
 	cov := mc.Coverage{Level: "model_checking", States: n, Transitions: n * 8, Traces: n, Evaluations: n, Distinct: dropped, Exhaustive: true, Samples: samples,
-		Rule:  "the real Auditd.Read under testing/synctest's virtual clock: first half in {login, LOGIN record + 2 events, the same session producing a further event every 20 s, login / session with unrelated logins arriving every 20 s meanwhile} x phase of its arrival within the cleanup period x gap to the second half, then two probe events; gap < 60 s must correlate (5 events), gap > 120 s must emit nothing ever; 60..120 s unjudged; plus 4 cells in which the loop itself is stalled (its write to the events output blocks while another session is flushed) for 72 s / 200 s across a cleanup instant and the second half arrives >= 126 s after the first; plus 2 cells in which another session's event is in the middle of its write (4 s) when a cleanup is due. distinct_nontrivial = cells in which the pending half must have been discarded",
+		Rule:  "the real Auditd.Read under testing/synctest's virtual clock: first half in {login, LOGIN record + 2 events, the same session producing a further event every 20 s, login / session with unrelated logins arriving every 20 s meanwhile} x phase of its arrival within the cleanup period x gap to the second half, then two probe events; gap < 60 s must correlate (5 events), gap > 120 s must emit nothing ever; 60..120 s unjudged; plus cells in which a login is delivered twice (identical, or a new login for the same pid) 40 s apart and the LOGIN record follows 30 s later (must correlate, with the second login's identity); plus 4 cells in which the loop itself is stalled (its write to the events output blocks while another session is flushed) for 72 s / 200 s across a cleanup instant and the second half arrives >= 126 s after the first; plus 2 cells in which another session's event is in the middle of its write (4 s) when a cleanup is due. distinct_nontrivial = cells in which the pending half must have been discarded",
 		Extra: map[string]any{"phases_s": len(phases), "gaps": len(gaps)}}
 	cov.Assumptions = []string{"virtual clock of testing/synctest"}
 	return run.Finish(cov)
